@@ -280,18 +280,23 @@ def to_py(v):
 
 
 def find_printed(stdout, tag):
-    """Find values printed by PrintT(<<"tag", value>>) in TLC stdout (bracket matched)."""
+    """Find values printed by PrintT(<<"tag", ...>>) in TLC stdout. TLC pretty-prints long values over
+    several lines and with blanks after '<<', so the search is whitespace tolerant and bracket matched.
+    Returns the list of tuples without the tag."""
     res = []
-    key = '<<"%s",' % tag
+    pat = re.compile(r'<<\s*"%s"\s*,' % re.escape(tag))
     i = 0
+    n = len(stdout)
     while True:
-        j = stdout.find(key, i)
-        if j < 0:
+        mo = pat.search(stdout, i)
+        if mo is None:
             break
+        j = mo.start()
         depth = 0
         k = j
         instr = False
-        while k < len(stdout):
+        end = None
+        while k < n:
             c = stdout[k]
             if instr:
                 if c == "\\":
@@ -307,8 +312,11 @@ def find_printed(stdout, tag):
                 depth -= 1
                 k += 1
                 if depth == 0:
+                    end = k
                     break
             k += 1
-        res.append(parse_value(stdout[j:k + 1])[1:])
-        i = k + 1
+        if end is None:
+            raise ValueError("unterminated printed value for tag %s" % tag)
+        res.append(parse_value(stdout[j:end + 1])[1:])
+        i = end + 1
     return res
